@@ -181,6 +181,9 @@ func runC08Pool(g *gen.G, rep *Report, cfx *CasesFile, n int) {
 			a := -1
 			if op.L2 != nil && g.Chance(0.75) {
 				a = (r + 1 + g.Int(2)) % 3
+				if g.Chance(0.12) {
+					a = r // the list itself as the argument
+				}
 				op.L2 = pool[a]
 			}
 			dst := r
@@ -219,7 +222,9 @@ func runC08Pool(g *gen.G, rep *Report, cfx *CasesFile, n int) {
 			big := false
 			for i, l := range pool {
 				var c string
-				if i == dst {
+				if i == dst && a == r && op.Kind == graphops.RelateList {
+					c = fmt.Sprintf("(SelfRel %s %s %s %d %s)", beforeCoq[r], coqfmt.Str(op.At), coqfmt.Z(int64(op.T)), outcome, coqfmt.NodeList(l))
+				} else if i == dst {
 					c = fmt.Sprintf("(One (mk_case08 %s %s %d %s))", beforeCoq[r], opCoq, outcome, coqfmt.NodeList(l))
 				} else {
 					c = fmt.Sprintf("(Frame %s %s)", beforeCoq[i], coqfmt.NodeList(l))
